@@ -50,6 +50,31 @@ COLL_KNOWN_STREAM = dict(
     rule='witnesses of the known findings of the collection slice, replayed with the monitors on',
 )
 
+
+def _mw_stream(fw):
+    return dict(
+        name='mw-' + fw, pkg=fw, test='TestVerifMw', corpus='corpus/mw', new_marker='mw new',
+        files=['harness/mw/%s/vm_common_test.go' % fw, 'harness/mw/%s/vm_%s_test.go' % (fw, fw)],
+        env=dict(quick=dict(VERIF_MW_MAXN=2, VERIF_MW_ALLFLAGS=0, VERIF_MW_RANDOM=400),
+                 thorough=dict(VERIF_MW_MAXN=3, VERIF_MW_ALLFLAGS=1, VERIF_MW_RANDOM=4000)),
+        race=dict(thorough=True), timeout='20m',
+        rule='requests against the real %s stack in-process: corpus, then for every app configuration (middleware installed?, '
+             '0..N configured middlewares, custom/default error, close-error, panic, scope-error and resolution-error handlers, '
+             'panic recovery on/off) the sequence of all exit paths (ok, middleware error at each position, handler error, handler '
+             'panic, scope-creation failure, resolution failure, Close error; plain handler and Handle wrapper; then provider closed), '
+             'then random configurations (up to 15 middlewares) with random request sequences, concurrent batches of 2-4 requests that '
+             'rendezvous inside the request, and provider shutdown; every scenario is non-trivial' % fw,
+    )
+
+
+MW_STREAMS = [_mw_stream(fw) for fw in ('http', 'chi', 'gin', 'echo', 'fiber')]
+
+MW_GENERATORS = [
+    dict(name='extract-middleware',
+         cmd='rm -f lean/GodiModel/Gen/Middleware.lean && cd extract && go run . -o ../lean/GodiModel/Gen/Middleware.lean'),
+    dict(name='stamp-harness-common', cmd='sh harness/mw/stamp.sh'),
+]
+
 PROPS = {
     'C05': dict(streams=[GRAPH_STREAM]),
     'C06': dict(streams=[GRAPH_STREAM]),
@@ -61,6 +86,17 @@ PROPS = {
     'C20': dict(streams=[COLL_STREAM], assumptions=[
         "a ModuleOption is one of the builders the API offers (Add*, Remove, RemoveKeyed, NewModule); user-written closures "
         "of type ModuleOption are outside the model"]),
+    'C16': dict(streams=MW_STREAMS, generators=MW_GENERATORS, assumptions=[
+        "T2: lean/GodiModel/Gen/Middleware.lean is regenerated by extract/ (go/ast, exact statement forms, everything else "
+        ".unknown) from <repo>/{http,chi,gin,echo,fiber}/<fw>.go before every build; the theorems are about those terms",
+        "modelled, not verified (Godi.Mw.Facts): gin runs the remaining handlers after a handler returns unless c.Abort() was "
+        "called; fasthttp closes io.Closer user values (the scope stored by c.Locals) at the end of the request, which on the "
+        "panic path presupposes a recover middleware outside the scope middleware; both are exercised by the T1 streams",
+        "scope operations used by the interpreter and proved under other properties: CreateScope returns a fresh scope or an "
+        "error (C02/C13), scope.Context() carries the scope (C18), Close is idempotent (C12), resolving from a closed scope fails (C13)",
+        "concurrency: the per-request function shares nothing but the provider (the extractor rejects state outside it); "
+        "isolation of scoped instances between scopes is C02",
+    ]),
 }
 
 
